@@ -1,6 +1,7 @@
 package main
 
 import (
+	"encoding/json"
 	"runtime/pprof"
 	"flag"
 	"fmt"
@@ -31,6 +32,8 @@ func main() {
 		cmdFn(os.Args[2:])
 	case "check":
 		cmdCheck(os.Args[2:])
+	case "pins":
+		cmdPins(os.Args[2:])
 	default:
 		fmt.Fprintln(os.Stderr, "unknown command")
 		os.Exit(2)
@@ -146,4 +149,37 @@ func cmdCheck(args []string) {
 		s.TimeoutS = *timeout
 	}
 	os.Exit(s.RunCheck(ps, vc.CheckOpts{VerifDir: *verif, Tier: tier, Seed: seed}))
+}
+
+// cmdPins prints the normalised specification text of every contract (and macro) of the
+// given packages as a JSON map usable as a pinned_file of a property spec.
+func cmdPins(args []string) {
+	contracts, _, err := vc.LoadContracts("/repo")
+	if err != nil {
+		fmt.Fprintln(os.Stderr, "error:", err)
+		os.Exit(2)
+	}
+	out := map[string]string{}
+	want := func(pkg string) bool {
+		for _, a := range args {
+			if strings.HasSuffix(pkg, "/"+a) {
+				return true
+			}
+		}
+		return len(args) == 0
+	}
+	for k, ct := range contracts {
+		if want(ct.Pkg) {
+			out[strings.TrimPrefix(k, vc.ModulePath+"/")+"#contract"] = ct.SpecText()
+		}
+	}
+	for pkg, ms := range vc.MacroRaw {
+		if want(pkg) {
+			for n, t := range ms {
+				out[strings.TrimPrefix(pkg, vc.ModulePath+"/")+"#macro:"+n] = t
+			}
+		}
+	}
+	data, _ := json.MarshalIndent(out, "", " ")
+	fmt.Println(string(data))
 }
